@@ -128,10 +128,45 @@ def _sample_env(ctx, pathcond, rng, tries=200):
     return None
 
 
-def _generic_witness(ctx, ob, pathcond, rng, tries=12):
+class _BudgetExceeded(BaseException):
+    pass
+
+
+class _time_budget:
+    """Interrupt pure-python work in this (worker) process after `seconds` (None: no limit)."""
+
+    def __init__(self, seconds):
+        self.seconds = seconds
+
+    def __enter__(self):
+        if self.seconds:
+            import signal
+
+            def handler(signum, frame):
+                raise _BudgetExceeded()
+            self.old = signal.signal(signal.SIGALRM, handler)
+            signal.setitimer(signal.ITIMER_REAL, self.seconds)
+        return self
+
+    def __exit__(self, *a):
+        if self.seconds:
+            import signal
+            signal.setitimer(signal.ITIMER_REAL, 0)
+            signal.signal(signal.SIGALRM, self.old)
+        return False
+
+
+def _generic_witness(ctx, ob, pathcond, rng, tries=12, thresh=1e-5, need=1):
     import numpy as np
-    la = np.asarray(ob.lhs, dtype=object).reshape(-1)
-    ra = np.asarray(ob.rhs, dtype=object).reshape(-1)
+    try:
+        la = np.asarray(ob.lhs, dtype=object).reshape(-1)
+        ra = np.asarray(ob.rhs, dtype=object).reshape(-1)
+        if la.size != ra.size:
+            la, ra = (np.broadcast_arrays(np.asarray(ob.lhs, dtype=object), np.asarray(ob.rhs, dtype=object)))
+            la, ra = la.reshape(-1), ra.reshape(-1)
+    except Exception:   # noqa
+        return None
+    found = None
     for _ in range(tries):
         env = _sample_env(ctx, pathcond, rng, tries=50)
         if env is None or env == 'infeasible':
@@ -145,8 +180,13 @@ def _generic_witness(ctx, ob, pathcond, rng, tries=12):
                     continue
                 worst = max(worst, abs(va - vb))
                 ref = max(ref, abs(va), abs(vb))
-            if worst > 1e-5 * ref:
-                return env
+            if worst > thresh * ref:
+                need -= 1
+                found = env
+                if need <= 0:
+                    return env
+            elif found is not None:
+                return None      # differs at one point but not at another: not a generic difference
         except Exception:   # noqa
             continue
     return None
@@ -287,9 +327,21 @@ def process_config(job):
                             rec.update(status='sat', structural='NaN pattern differs at flat index %d' % structural)
                             cex_env = env0
                         else:
-                            r = smt.check_equal_many(ctx, sym_pairs, pathcond, timeout_s=job['qtimeout'],
-                                                     want_smt2=job.get('want_smt2', False) and not res['samples'])
-                            if r['status'] == 'sat':
+                            # the exact query gets a first budget; if normalising the identity takes longer, a numeric difference at two
+                            # generic points of the path is taken as the counterexample candidate (replay decides), otherwise the exact
+                            # query is run to the end
+                            kw = dict(timeout_s=job['qtimeout'], want_smt2=job.get('want_smt2', False) and not res['samples'])
+                            try:
+                                with _time_budget(45):
+                                    r = smt.check_equal_many(ctx, sym_pairs, pathcond, **kw)
+                            except _BudgetExceeded:
+                                wit = _generic_witness(ctx, ob, pathcond, rng, tries=2, thresh=1e-3, need=2)
+                                if wit is not None:
+                                    r = {'status': 'sat', 'env': wit, 'n_components': 0, 'syntactic_mismatch': -1, 'time_s': 45.0, 'atoms': 0}
+                                    rec['decided'] = 'numeric witness (exact normalisation of the failing identity exceeded 45 s); confirmed by replay only'
+                                else:
+                                    r = smt.check_equal_many(ctx, sym_pairs, pathcond, **kw)
+                            if r['status'] == 'sat' and 'decided' not in rec:
                                 # cyclotomic vs radical representation of the same constants: retry on the algebraic form
                                 r2 = smt.check_equal_many(ctx, sym_pairs, pathcond, timeout_s=job['qtimeout'], algebraic_roots=True)
                                 if r2['status'] == 'unsat':
